@@ -11,10 +11,11 @@ in flight (kept), the queues and the metadata downloads are left. -/
 theorem WInv.unloaded {s s' : St} (h : WInv s) (h1 : s'.cfg = s.cfg) (h3 : s'.writing = s.writing)
     (h4 : s'.gen = s.gen) (hl : s'.loaded = false) (hd : s'.dls = []) (hi : s'.info = true → s'.idls = [])
     (hq : QueueOK s') : WInv s' := by
-  refine ⟨by rw [h1]; exact h.cfgOK, hq, ?_, ?_, ?_, ?_, ?_, ?_, ?_, ?_, hi⟩
+  refine ⟨hq, ?_, ?_, ?_, ?_, ?_, ?_, ?_, ?_, ?_, hi⟩
   · rw [hl]; intro hh; cases hh
-  · rw [h3, h1]; exact h.wb
   · rw [h3, h4]; exact h.wg
+  · rw [hl]; intro _ _ _ hh; cases hh
+  · rw [hl]; intro hh; cases hh
   · rw [hl]; intro _ _ _ hh; cases hh
   · rw [hl]; intro hh; cases hh
   · rw [hd]; intro d hd'; cases hd'
